@@ -97,6 +97,11 @@ func failingStatements(r *core.Rng) (stmts []ast.Node, where string) {
 			ss = append(ss, ast.Assign{Name: []string{"ga", "gb", "gc"}[r.Intn(3)], Value: []ast.Node{il(int64(r.Intn(100))), ast.StrLit{V: "kept"}, ast.ArrayLit{Elems: []ast.Node{il(1), ast.StrLit{V: "k"}}}}[r.Intn(3)]})
 		}
 		if r.Chance(1, 3) {
+			// a function that calls another one, bound inside the statement that is going to fail: a later failure below
+			// that call is reported with the same backtrace as in a session that never saw this failure
+			ss = append(ss, ast.Assign{Name: "zkcall", Value: ast.FuncLit{Params: []string{"n"}, Body: ast.Binary{Op: "+", L: icall("zkboom", nm("n"), il(int64(r.Intn(9)))), R: il(1)}}})
+		}
+		if r.Chance(1, 3) {
 			// a function whose body holds data-segment constants, bound inside the statement that is going to fail
 			ss = append(ss, ast.Assign{Name: "zkeep", Value: ast.FuncLit{Params: []string{"n"}, Body: ast.ArrayLit{Elems: []ast.Node{nm("n"), ast.StrLit{V: fmt.Sprintf("const-%d", r.Intn(100))}, ast.FloatLit{V: 2.5}, ast.StrLit{V: "second"}}}}})
 		}
@@ -213,6 +218,7 @@ func suffixProbes(r *core.Rng) []ast.Node {
 		icall("zgrow", il(int64(r.Range(1, 9))), il(int64(r.Range(900, 1600)))),
 		ast.Assign{Name: "zfresh", Value: ast.ArrayLit{Elems: []ast.Node{ast.StrLit{V: fmt.Sprintf("fresh-%d", r.Intn(100))}, ast.FloatLit{V: 7.25}, ast.StrLit{V: "later"}}}},
 		icall("zkeep", il(int64(r.Intn(9)))),
+		icall("zkcall", il(int64(r.Range(0, 3)))), // (fails below the call inside zkcall)
 		ast.For{Vars: []string{"zi"}, Iters: []ast.Node{icall("zkgen", il(int64(r.Range(20, 60))))}, Body: nm("zi")},
 		ast.If{Cond: ast.Binary{Op: "==", L: toa(nm("gfn")), R: ast.StrLit{V: "function"}}, Then: icall("gfn"), Else: il(0)},
 		ast.ArrayLit{Elems: []ast.Node{toa(nm("ga")), toa(nm("gb")), toa(nm("gc")), toa(nm("gw")), toa(nm("gz")), toa(nm("gi"))}},
@@ -236,6 +242,24 @@ func diffTail(a, b string) string {
 type sufObs struct {
 	V         val.Value
 	Out, Errc string
+	Trace     string // the backtrace lines of the error report without their code addresses
+}
+
+var traceLineRe = regexp.MustCompile(`(?m)^IP: \d+ (.*)$`)
+
+// traceShape keeps what a backtrace says independently of where the code sits: the call lines (name, arguments)
+// and any line in which the report gives up.
+func traceShape(report string) string {
+	var sb strings.Builder
+	for _, m := range traceLineRe.FindAllStringSubmatch(report, -1) {
+		sb.WriteString(m[1] + "\n")
+	}
+	for _, l := range strings.Split(report, "\n") {
+		if strings.Contains(l, "giving up") || strings.Contains(l, "No debug info") {
+			sb.WriteString(l + "\n")
+		}
+	}
+	return ptrRe.ReplaceAllString(sb.String(), "0x")
 }
 
 func c08Case(ctx *core.Ctx, idx int) core.Result {
@@ -251,6 +275,9 @@ func c08Case(ctx *core.Ctx, idx int) core.Result {
 		ast.Assign{Name: "zkeep", Value: ast.FuncLit{Params: []string{"n"}, Body: ast.ArrayLit{Elems: []ast.Node{nm("n"), ast.StrLit{V: "base"}}}}},
 		ast.Assign{Name: "zkrec", Value: ast.FuncLit{Params: []string{"q"}, Body: ast.If{Cond: ast.Binary{Op: "<=", L: nm("q"), R: il(0)}, Then: il(0), Else: ast.Binary{Op: "+", L: il(1), R: icall("zkrec", ast.Binary{Op: "-", L: nm("q"), R: il(1)})}}}},
 		ast.Assign{Name: "zkgen", Value: ast.FuncLit{Params: []string{"q"}, Body: ast.Block{Stmts: []ast.Node{icall("zkrec", nm("q")), ast.Yield{X: nm("q")}, icall("zkrec", nm("q"))}}}})
+	prefix = append(prefix,
+		ast.Assign{Name: "zkboom", Value: ast.FuncLit{Params: []string{"d", "e"}, Body: ast.If{Cond: ast.Binary{Op: "<=", L: nm("d"), R: il(0)}, Then: ast.Binary{Op: "/", L: nm("e"), R: nm("d")}, Else: ast.Binary{Op: "+", L: il(1), R: icall("zkboom", ast.Binary{Op: "-", L: nm("d"), R: il(1)}, nm("e"))}}}},
+		ast.Assign{Name: "zkcall", Value: ast.FuncLit{Params: []string{"n"}, Body: ast.Binary{Op: "+", L: icall("zkboom", nm("n"), il(77)), R: il(2)}}})
 	prefix = append(prefix, g.Session(r.Range(0, 3))...)
 	fstmts, where := failingStatements(r)
 	parseErr := ""
@@ -325,7 +352,7 @@ func c08Case(ctx *core.Ctx, idx int) core.Result {
 		}
 		if b, ok := st.(ast.Block); ok {
 			for _, bs := range b.Stmts {
-				if a, ok := bs.(ast.Assign); ok && a.Name == "zkeep" {
+				if a, ok := bs.(ast.Assign); ok && (a.Name == "zkeep" || a.Name == "zkcall") {
 					helperDefs = append(helperDefs, bs)
 				}
 			}
@@ -432,7 +459,7 @@ func c08Case(ctx *core.Ctx, idx int) core.Result {
 			if checkF {
 				note(ob)
 			}
-			out = append(out, sufObs{ob.Value, ob.Out, ob.Err})
+			out = append(out, sufObs{ob.Value, ob.Out, ob.Err, traceShape(ob.Report)})
 		}
 		return out, ""
 	}
@@ -455,6 +482,12 @@ func c08Case(ctx *core.Ctx, idx int) core.Result {
 	for i := range suffix {
 		w := wantSuffix[i]
 		same := a[i].Errc == b[i].Errc && a[i].Out == b[i].Out && (!doOut || a[i].Errc != "" || val.Same(a[i].V, b[i].V))
+		if same && a[i].Trace != b[i].Trace {
+			res.Verdict = core.Violated
+			res.Viol = &core.Violation{Monitor: "twin-run", Detail: fmt.Sprintf("suffix statement %d %q fails in both sessions, but its error report lists the calls %q after the failure and %q in the twin session that never saw it",
+				i, trunc(ast.Print(suffix[i], nil), 160), trunc(a[i].Trace, 400), trunc(b[i].Trace, 400)), Input: in}
+			return res
+		}
 		if !same {
 			res.Verdict = core.Violated
 			res.Viol = &core.Violation{Monitor: "twin-run", Detail: fmt.Sprintf("suffix statement %d %q: after the failure (value %s, output %q, error %q) but in the twin session that never saw it (value %s, output %q, error %q)",
